@@ -43,6 +43,14 @@ def check_typing(ctx, case):
             break
         if (starts[0] + r) % n + 1 > n - 3:
             wrapped = True
+    # a circular record may say so, in any letter case: nothing changes, at any rotation
+    for topo in ("circular", "Circular", "CIRCULAR"):
+        r = rots[len(rots) // 2] if rots else 0
+        got = T.evaluate(cls, gen.rot(wd, r), topology=topo)
+        if got[:5] != base[:5]:
+            ctx.fail("{} on {!r} rotated by {}: a record annotated topology={!r} is typed {} instead of {}".format(
+                cls.__name__, wd, r, topo, got[:3], base[:3]), dict(case, rots=[r]))
+            break
     ctx.note("verdict:" + base[0])
     ctx.note("rotations", len(rots))
     ctx.case(case, nontrivial=base[0] == "valid", key=[case["cls"], wd])
@@ -95,6 +103,13 @@ def run(ctx):
         for _ in range(per):
             wd, _ = T.kit_instance(rng, cls, runlen=rng.choice([0, 2, 5, 20]))
             ctx.guard(check_typing, {"cls": asm.cls_name(cls), "word": gen.rot(wd, rng.randrange(len(wd)))})
+    # records a class must refuse (a third site of its cutter inside the one occurrence of its structure): refused
+    # wherever the origin is — in particular when the match wraps and some of the sites lie past the origin
+    for cls in kits:
+        if ctx.tier == "quick" and rng.random() < 0.6:
+            continue
+        wd = T.inner_site_instance(rng, cls, lower="upper")
+        ctx.guard(check_typing, {"cls": asm.cls_name(cls), "word": gen.rot(wd, rng.randrange(len(wd))), "refused": True})
     # assemblies with rotated inputs
     for enz in asm.pick_enzymes(rng, ctx.budget(80, 3000)):
         g = asm.gen_wellformed(rng, enz)
